@@ -1,3 +1,4 @@
+import RxnModel.Generated.Facts
 /-!
 # Job FSM — executable model of `jobs.Job` with its snapshot store and the operators' in-flight checkpoint record
 
@@ -67,8 +68,15 @@ def ins (i : Nat) : List Nat → List Nat
   | [] => [i]
   | x :: xs => if i < x then i :: x :: xs else if i = x then x :: xs else x :: ins i xs
 
-/-- `hb.Before(now.Add(-deadline))` -/
-def expired (d now hb : Nat) : Bool := hb + d < now
+/-- the expiry test of `LivenessTracker.Purge`, `hb.Before(lt.clock.Now().Add(-lt.deadline))`, as extracted from the
+source (`Generated/Facts.lean`): comparison 0 = After, 1 = Before, +2 = negated; the deadline is subtracted or added -/
+def expired (d now hb : Nat) : Bool :=
+  let limit : Int := if Facts.livenessMinusDeadline = 1 then (now : Int) - d else (now : Int) + d
+  match Facts.livenessCond with
+  | 0 => decide ((hb : Int) > limit)
+  | 1 => decide ((hb : Int) < limit)
+  | 2 => !decide ((hb : Int) > limit)
+  | _ => !decide ((hb : Int) < limit)
 
 def dead (s : St) (i : Nat) : Bool :=
   match s.live i with
@@ -78,7 +86,9 @@ def dead (s : St) (i : Nat) : Bool :=
 /-- `Registry.Purge` -/
 def purge (s : St) : St :=
   { s with ops := s.ops.filter (fun i => !dead s i), srs := s.srs.filter (fun i => !dead s i),
-           live := fun i => if dead s i then none else s.live i }
+           live := fun i => match s.live i with
+             | some hb => if expired s.d s.now hb then none else some hb
+             | none => none }
 
 /-- `Assembly.Healthy` -/
 def healthy (s : St) : Bool :=
@@ -143,6 +153,11 @@ inductive Act
   | deployOk | deployFail (k : Nat)
   | tick | ackS (i id : Nat) | ackO (i id : Nat) | bar (i s id : Nat)
   deriving DecidableEq, Repr
+
+/-- the tasks that change the registry (each ends with `evaluateClusterStatus`) -/
+def Act.membership : Act → Bool
+  | .regO _ | .regS _ | .deregO _ | .deregS _ => true
+  | _ => false
 
 inductive Out
   | status (st : Status) (dep : Option Dep)
@@ -239,6 +254,12 @@ def run (s : St) : List Act → St × List Out
     let (s1, o) := step s a
     let (s2, os) := run s1 as
     (s2, o :: os)
+
+/-- one complete checkpoint round of the current assembly: the ticker fires, every source runner acknowledges, and
+every operator receives the barrier of every source runner -/
+def progressActs (s : St) : List Act :=
+  Act.tick :: ((s.asmSrs.map fun x => Act.ackS x (s.store.counter + 1)) ++
+    (s.asmOps.flatMap fun i => s.asmSrs.map fun x => Act.bar i x (s.store.counter + 1)))
 
 /-- the states of all traces from all initial configurations -/
 def Reachable (s : St) : Prop := ∃ w d c0 acts, s = (run (init w d c0) acts).1
